@@ -201,10 +201,29 @@ def lex_run(name, defs, tier, seed, cfgs, maxlen, nchars, tlc_workers=8, livenes
         f.write(blob)
     meta_by_idx = {m["idx"]: m for m in metas}
     cfgfile = "LexSpec.cfg" if liveness else "LexSpecSafety.cfg"
-    res = run_tlc("LexSpec.tla", cfgfile, {"DEFS": lex_defs, "MAXLEN": str(maxlen), "EMIT": "1"}, workers=tlc_workers,
-                  metaname="lex-" + name, timeout=3000 if tier == "quick" else 12000, xss="512m")
-    if not res["ok"]:
-        raise ToolError("LexSpec.tla: TLC reports a violation of the specification's own invariants:\n" + res["out"][-3000:])
+    # LexSpec's invariants are statements about the REFERENCE meaning of every definition the derive accepted.  On
+    # the unchanged tree they hold for all of them.  If one fails, the derive has accepted a definition whose meaning
+    # breaks it (e.g. a pattern that matches bytes that are not UTF-8 in a str lexer -> Boundaries): that definition
+    # is reported (kind spec_invariant), left out, and the exploration is repeated for the others.
+    import re as _re
+    spec_findings = []
+    for attempt in range(6):
+        res = run_tlc("LexSpec.tla", cfgfile, {"DEFS": lex_defs, "MAXLEN": str(maxlen), "EMIT": "1"}, workers=tlc_workers,
+                      metaname="lex-" + name, timeout=3000 if tier == "quick" else 12000, xss="512m")
+        if res["ok"]:
+            break
+        mi = _re.search(r"Invariant (\w+) is violated", res["out"])
+        md = _re.findall(r"/\\ d = (\d+)", res["out"])
+        if not mi or not md or attempt == 5:
+            raise ToolError("LexSpec.tla: TLC reports a violation of the specification's own invariants:\n" + res["out"][-3000:])
+        bad = int(md[-1])
+        ms = _re.findall(r"/\\ src = (<<[^\n]*>>)", res["out"])
+        spec_findings.append({"def": meta_by_idx[bad]["id"], "cfg": "reference", "kind": "spec_invariant", "mode": "full", "input": ms[-1] if ms else "",
+                              "splits": None, "expected": "LexSpec invariant %s for every accepted definition" % mi.group(1), "got": "violated by the reference meaning of this definition",
+                              "why": "the derive accepted a definition whose meaning violates %s" % mi.group(1), "src": meta_by_idx[bad]["src"], "invariant": mi.group(1)})
+        tla_defs[bad - 1]["chars"] = []          # Sel leaves it out
+        with open(lex_defs, "w") as f:
+            f.write("\n".join(json.dumps(td) for td in tla_defs) + "\n")
     # the model of the generated code (GraphLex.tla) on the same definitions and alphabets, both modes
     gl = run_tlc("GraphLex.tla", "GraphLex.cfg", {"DEFS": lex_defs, "MAXLEN": str(max(2, maxlen - 1))}, workers=tlc_workers,
                  metaname="graphlex-" + name, timeout=3000 if tier == "quick" else 12000, xss="512m")
@@ -213,7 +232,7 @@ def lex_run(name, defs, tier, seed, cfgs, maxlen, nchars, tlc_workers=8, livenes
     bins = build_subjects(metas, cfgs, name)
     has_twins = any(td["twin"] for td in tla_defs)
     look_of = {td["idx"]: any(rf["look"] for rf in td["ref"]) for td in tla_defs}
-    findings = []
+    findings = list(spec_findings)
     samples = []
     counts = {"runs": 0, "requests": 0, "more": 0, "explored": set()}
     twin_items = {}      # (def idx, input hex) -> items of the last configuration, full mode, definitions with a twin only
